@@ -69,7 +69,7 @@ class Ctx:
     # ------------------------------------------------------------------ Go
     def goenv(self):
         e = dict(os.environ)
-        e.update({"GOFLAGS": "-mod=mod", "GOPROXY": "off"})
+        e.update({"GOFLAGS": "-mod=mod", "GOPROXY": "off", "GONOSUMDB": "pgregory.net", "GOPRIVATE": "pgregory.net"})
         e.pop("GOTOOLCHAIN", None)   # auto toolchain switch to cached go1.25.0 is required
         e.pop("GOSUMDB", None)
         return e
@@ -332,8 +332,10 @@ def read_emitted(path):
 def load_known():
     """known-findings.txt: 'known: property=C05 key=<key> <text>'; 'fixed:' lines suppress nothing."""
     known = {}
-    p = os.path.join(VERIF, "known-findings.txt")
-    if os.path.exists(p):
+    paths = [os.path.join(VERIF, "known-findings.txt")] + sorted(glob.glob(os.path.join(VERIF, "known-findings.d", "*.txt")))
+    for p in paths:
+        if not os.path.exists(p):
+            continue
         for ln in open(p):
             m = re.match(r"known:\s+property=(\S+)\s+key=(\S+)\s*(.*)", ln.strip())
             if m:
